@@ -149,6 +149,30 @@ Definition spec_rows (k : kspec) (rows : list hrow) : list row := map snd (spec 
 Definition chk_spec (k : kspec) (cs : list (list hrow)) (expect : list row) : bool :=
   rows_eqb (spec_rows k (concat cs)) expect.
 
+(** input chunks with a selection vector: (physical rows, selected indices) *)
+Fixpoint chk_steps_sel (k : @opk hrow (list Z)) (s : @opst hrow (list Z)) (cs : list (list hrow * list Z))
+         (obs : list (list (list row) * bool)) : option (@opst hrow (list Z)) :=
+  match cs, obs with
+  | [], [] => Some s
+  | (phys, sel) :: cr, (o, b) :: orr =>
+      let '(s', out, cont) := push_sel zlist_eqb k s phys (map n sel) in
+      if chunks_eqb (strip out) o && Bool.eqb cont b then chk_steps_sel k s' cr orr else None
+  | _, _ => None
+  end.
+Definition chk_push_sel (k : kspec) (cs : list (list hrow * list Z)) (obs : list (list (list row) * bool))
+           (fin : list (list row)) : bool :=
+  match chk_steps_sel (to_opk k) st0 cs obs with
+  | Some s => chunks_eqb (strip (finish (to_opk k) s)) fin
+  | None => false
+  end.
+Definition sel_input (cs : list (list hrow * list Z)) : list hrow :=
+  concat (map (fun c => sel_rows (fst c) (map n (snd c))) cs).
+(** the list specification on the SELECTED rows *)
+Definition chk_spec_sel (k : kspec) (cs : list (list hrow * list Z)) (expect : list row) : bool :=
+  rows_eqb (spec_rows k (sel_input cs)) expect.
+Definition k_push_sel_not_prefix (cs : list (list hrow * list Z)) : bool :=
+  k_sel_not_prefix (map (fun c => map n (snd c)) cs).
+
 (** Pipeline::execute over a VectorSource *)
 Inductive pobs := ODiverge | ORows (out : list (list row)).
 Definition chk_pipeline (ks : list kspec) (rows : list hrow) (impl : pobs) : bool :=
